@@ -37,6 +37,9 @@ pub struct CaseOut {
     pub nontrivial: bool,
     pub classes: Vec<&'static str>,
     pub avoided: u32,
+    /// additional executions inside this case (fault enumeration re-runs)
+    pub extra_evals: u32,
+    pub op_panicked: bool,
 }
 
 /// map a pick onto an argument: small values, then the two values at the top of the range
@@ -142,9 +145,30 @@ impl<C: Cfg> World<C> {
                 self.do_get(v, idx, view, tr);
             }
             OP_ITER => {
-                let kind = ch.pick(7);
-                let pat = ch.pick(3);
-                self.do_iter(v, kind, pat, tr);
+                let kind = ch.pick(8);
+                let extra = self.spec.extra_calls;
+                let mut calls: Vec<bool> = Vec::new();
+                if hist || self.spec.mon & MON_ITER == 0 {
+                    // three canonical patterns (+ random ones in histories)
+                    let n = len + extra;
+                    match ch.pick(if hist { 4 } else { 3 }) {
+                        0 => calls = vec![false; n],
+                        1 => calls = vec![true; n],
+                        2 => calls = (0..n).map(|k| k % 2 == 1).collect(),
+                        _ => {
+                            for _ in 0..n.min(24) {
+                                calls.push(ch.flip());
+                            }
+                        }
+                    }
+                } else {
+                    // every next/next_back string of length len + extra
+                    for _ in 0..len + extra {
+                        calls.push(ch.flip());
+                    }
+                }
+                let clone_at = if kind == 7 { ch.pick(calls.len() as u32 + 1) as usize } else { 0 };
+                self.do_iter(v, kind, &calls, clone_at, tr);
             }
             OP_DRAIN | OP_SPLICE => {
                 let rop = self.plan_range(ch, op == OP_SPLICE, hist, v, w);
@@ -223,7 +247,17 @@ impl<C: Cfg> World<C> {
         if live {
             eprintln!("     done: {}", &tr[tr_start..]);
         }
+        if self.fault_mode && crate::elem::reg(|r| r.fault_fired) {
+            self.after_fault(ctx, tr);
+            return;
+        }
         self.check_state(ctx);
+        if self.forgot && !self.dead() && !hist {
+            // after a leak the vector must stay fully usable
+            self.forgot = false;
+            self.nontrivial = true;
+            self.usability_script(tr);
+        }
     }
 
     pub fn plan_range(&mut self, ch: &mut Ch, splice: bool, hist: bool, v: usize, w: usize) -> RangeOp {
@@ -311,11 +345,15 @@ impl<C: Cfg> World<C> {
                 op.repl_kind = REPL_KINDS[ch.pick(4) as usize];
                 op.repl_len = ch.pick(6) as usize;
                 op.wa = ch.pick(self.model[w].len() as u32 + 1) as usize;
+                if self.spec.allow_lies && ch.pick(4) == 0 {
+                    op.lie = [-2isize, -1, 1, 2][ch.pick(4) as usize];
+                    op.repl_kind = ReplKind::Wrapper;
+                }
             }
             return op;
         }
         // exhaustive: three sub-sweeps (sum, not product)
-        let mode = ch.pick(if splice { 3 } else { 2 });
+        let mode = ch.pick(if splice { if self.spec.allow_lies { 4 } else { 3 } } else { 2 });
         match mode {
             0 => {
                 // every form x every pair of bound values around the boundaries and at usize::MAX
@@ -342,7 +380,7 @@ impl<C: Cfg> World<C> {
                 op.y = b;
                 op.typed = ch.flip();
                 let n = b - a;
-                let ncalls = ch.pick(n as u32 + 2) as usize; // 0..=n+1 (one call past exhaustion)
+                let ncalls = ch.pick(n as u32 + 2 + self.spec.extra_calls as u32) as usize; // 0..=n+1+extra (calls past exhaustion)
                 for _ in 0..ncalls {
                     op.calls.push(ch.flip());
                 }
@@ -352,6 +390,16 @@ impl<C: Cfg> World<C> {
                 if splice {
                     op.repl_len = ch.pick(3) as usize;
                 }
+            }
+            3 => {
+                // lying ExactSizeIterator: len() off by -2..=+2 for every replacement length 0..=4
+                let a = ch.pick(len as u32 + 1) as usize;
+                let b = a + ch.pick((len - a) as u32 + 1) as usize;
+                op.x = a;
+                op.y = b;
+                op.typed = ch.flip();
+                op.repl_len = ch.pick(5) as usize;
+                op.lie = [-2isize, -1, 1, 2][ch.pick(4) as usize];
             }
             _ => {
                 // replacement sweep
@@ -381,9 +429,151 @@ impl<C: Cfg> World<C> {
     }
 }
 
+impl<C: Cfg> World<C> {
+    /// Arm the k-th user-code invocation (1-based, counted from now) to panic.
+    pub fn arm_fault(&mut self, k: u32) {
+        crate::elem::reg(|r| {
+            r.user_calls = 0;
+            r.fault_at = Some(k);
+            r.fault_fired = false;
+        });
+        self.fault_mode = true;
+    }
+    pub fn disarm_fault(&mut self) -> u32 {
+        self.fault_mode = false;
+        crate::elem::reg(|r| {
+            r.fault_at = None;
+            r.fault_fired = false;
+            r.user_calls
+        })
+    }
+
+    /// The injected fault fired inside operation `ctx`. Only validity is promised now:
+    /// check it, resynchronise the model, then prove the vectors are still fully usable.
+    pub fn after_fault(&mut self, ctx: &'static str, tr: &mut String) {
+        self.disarm_fault();
+        self.faults_fired += 1;
+        self.nontrivial = true;
+        self.class("fault-fired");
+        let _ = write!(tr, "[fault fired in {}] ", ctx);
+        let fls: Vec<crate::backend::Flavour> = self.flav.to_vec();
+        for s in 0..3 {
+            if self.vecs[s].is_some() {
+                self.resync_after_damage(s);
+            }
+        }
+        self.recount_leaks();
+        if self.dead() {
+            return;
+        }
+        self.check_state("after-fault");
+        if self.dead() {
+            return;
+        }
+        self.usability_script(tr);
+    }
+
+    /// push, insert, remove, drain, clear, push on every vector under the ordinary oracle.
+    pub fn usability_script(&mut self, tr: &mut String) {
+        let fls: Vec<crate::backend::Flavour> = self.flav.to_vec();
+        // usability script on every surviving vector (slots 0 and 1 always exist)
+        for s in 0..self.n_slots {
+            if self.vecs[s].is_none() {
+                self.setup_slot(s, fls[s], 0, None);
+            }
+        }
+        for s in 0..3 {
+            if self.vecs[s].is_none() {
+                continue;
+            }
+            let other = (0..3).find(|o| *o != s && self.vecs[*o].is_some());
+            let _ = write!(tr, "usability(v{}): ", s);
+            let fixed = fls[s].fixed_cap();
+            let room = |w: &Self| fixed.map(|c| c > w.model[s].len()).unwrap_or(true);
+            if room(self) {
+                self.do_insert(s, None, Src::Wrapper, s, 0, 1, false, tr);
+                self.check_state("usability-push");
+            }
+            if room(self) && !self.dead() {
+                self.do_insert(s, Some(0), Src::Raw, s, 0, 1, false, tr);
+                self.check_state("usability-insert");
+            }
+            if !self.dead() && !self.model[s].is_empty() {
+                let mid = self.model[s].len() / 2;
+                self.do_remove(RemKind::Remove, s, mid, Sink::Drop, other.unwrap_or(s), 0, tr);
+                self.check_state("usability-remove");
+            }
+            if !self.dead() && !self.model[s].is_empty() {
+                if let Some(o) = other {
+                    let rop = RangeOp { v: s, form: 2, x: 0, y: 1, typed: false, calls: vec![], sinks: vec![], w: o, forget_iter: false, splice: false, repl_kind: ReplKind::Wrapper, repl_len: 0, wa: 0, lie: 0 };
+                    self.do_range(&rop, tr);
+                    self.check_state("usability-drain");
+                }
+            }
+            if !self.dead() {
+                self.do_clear(s, false, tr);
+                self.check_state("usability-clear");
+            }
+            if room(self) && !self.dead() {
+                self.do_insert(s, None, Src::Typed, s, 0, 1, false, tr);
+                self.check_state("usability-push2");
+            }
+        }
+    }
+}
+
 /// Run one case of `shape` for configuration `C`.
 pub fn run_case<C: Cfg>(spec: &Spec, shape: Shape, ch: &mut Ch, tr: &mut String) -> CaseOut {
+    if !spec.fault_enum || shape == Shape::History {
+        return run_body::<C>(spec, shape, ch, tr, None).0;
+    }
+    // fault enumeration: a fault-free run counts the N user-code invocations inside the
+    // operation, then N re-runs of the same case make the k-th invocation panic.
+    let (mut out, mut n) = run_body::<C>(spec, shape, ch, tr, Some(u32::MAX));
+    if out.op_panicked {
+        // an operation that panics by itself plus a panicking destructor is a double panic
+        // (process abort by language rule): excluded by construction, counted
+        out.avoided += 1;
+        n = 0;
+    }
+    let picks = ch.rec.clone();
+    out.extra_evals = 0;
+    if out.violation.is_some() || out.desync.is_some() {
+        return out;
+    }
+    let mut fired = 0;
+    for k in 1..=n.min(64) {
+        let mut ch2 = Ch::replay(picks.clone());
+        let mut tr2 = String::new();
+        let (o2, _) = run_body::<C>(spec, shape, &mut ch2, &mut tr2, Some(k));
+        out.extra_evals += 1;
+        for c in o2.classes {
+            if !out.classes.contains(&c) {
+                out.classes.push(c);
+            }
+        }
+        if o2.nontrivial {
+            fired += 1;
+        }
+        if o2.violation.is_some() || o2.desync.is_some() {
+            tr.clear();
+            let _ = write!(tr, "{{fault at user-code invocation {} of {}}} {}", k, n, tr2);
+            out.violation = o2.violation;
+            out.desync = o2.desync;
+            out.nontrivial = true;
+            return out;
+        }
+    }
+    let _ = write!(tr, " {{{} user-code invocations; {} faults injected}}", n, fired);
+    out.nontrivial = fired > 0;
+    out
+}
+
+/// One execution. `fault`: None = plain; Some(u32::MAX) = count user-code invocations of the
+/// operation; Some(k) = make the k-th invocation panic.
+pub fn run_body<C: Cfg>(spec: &Spec, shape: Shape, ch: &mut Ch, tr: &mut String, fault: Option<u32>) -> (CaseOut, u32) {
     let mut w = World::<C>::new(spec.clone());
+    let mut user_calls = 0u32;
     let flavours = C::M::flavours(C::T::SIZE);
     let nf = flavours.len() as u32;
     match shape {
@@ -406,7 +596,13 @@ pub fn run_case<C: Cfg>(spec: &Spec, shape: Shape, ch: &mut Ch, tr: &mut String)
             w.setup_slot(1, wfl, wl, Some(1));
             w.check_state("setup");
             w.nontrivial = false;
+            if let Some(k) = fault {
+                w.arm_fault(k);
+            }
             w.step(ch, false, tr);
+            if fault.is_some() {
+                user_calls = w.disarm_fault();
+            }
             if shape == Shape::Step2 && !w.dead() {
                 w.step(ch, false, tr);
             }
@@ -426,6 +622,9 @@ pub fn run_case<C: Cfg>(spec: &Spec, shape: Shape, ch: &mut Ch, tr: &mut String)
             w.check_state("setup");
             w.nontrivial = false;
             let how = ch.pick(nf + 2) as usize;
+            if let Some(k) = fault {
+                w.arm_fault(k);
+            }
             if how == 0 {
                 w.do_clone(0, 1, tr);
             } else if how == 1 {
@@ -434,12 +633,19 @@ pub fn run_case<C: Cfg>(spec: &Spec, shape: Shape, ch: &mut Ch, tr: &mut String)
                 w.do_clone_empty(0, 1, Some(flavours[how - 2]), tr);
             }
             let _ = write!(tr, "; ");
-            w.check_state("clone");
-            if !w.dead() {
-                // one operation on the original or on the clone; the other one must not change
-                let on_clone = ch.flip();
-                let slots = if on_clone { (1, 0) } else { (0, 1) };
-                w.step_on(ch, false, Some(slots), tr);
+            if w.fault_mode && crate::elem::reg(|r| r.fault_fired) {
+                w.after_fault("clone", tr);
+            } else {
+                if fault.is_some() {
+                    user_calls = w.disarm_fault();
+                }
+                w.check_state("clone");
+                if !w.dead() {
+                    // one operation on the original or on the clone; the other one must not change
+                    let on_clone = ch.flip();
+                    let slots = if on_clone { (1, 0) } else { (0, 1) };
+                    w.step_on(ch, false, Some(slots), tr);
+                }
             }
         }
         Shape::RawThen => {
@@ -495,6 +701,7 @@ pub fn run_case<C: Cfg>(spec: &Spec, shape: Shape, ch: &mut Ch, tr: &mut String)
                 w.setup_slot(s, fl, len, None);
             }
             let _ = write!(tr, "| ");
+            w.n_slots = 3;
             w.check_state("setup");
             w.nontrivial = false;
             let mut n = 0;
@@ -512,7 +719,14 @@ pub fn run_case<C: Cfg>(spec: &Spec, shape: Shape, ch: &mut Ch, tr: &mut String)
                         break;
                     }
                 }
-                w.step(ch, true, tr);
+                if spec.fault_enum && w.faults_fired < 3 && ch.pick(3) == 0 {
+                    let k = 1 + ch.pick(6);
+                    w.arm_fault(k);
+                    w.step(ch, true, tr);
+                    w.disarm_fault();
+                } else {
+                    w.step(ch, true, tr);
+                }
                 n += 1;
             }
         }
@@ -521,5 +735,5 @@ pub fn run_case<C: Cfg>(spec: &Spec, shape: Shape, ch: &mut Ch, tr: &mut String)
     if let Some(v) = &w.viol {
         let _ = write!(tr, " => VIOLATION[{}] {}", v.sig, v.msg);
     }
-    CaseOut { violation: w.viol.take(), desync: w.desync.take(), nontrivial: w.nontrivial, classes: std::mem::take(&mut w.classes), avoided: w.avoided }
+    (CaseOut { violation: w.viol.take(), desync: w.desync.take(), nontrivial: w.nontrivial, classes: std::mem::take(&mut w.classes), avoided: w.avoided, extra_evals: 0, op_panicked: w.op_panicked }, user_calls)
 }
